@@ -10,15 +10,15 @@ Local Open Scope N_scope.
 (* Soundness.  If the full check (read_data) reports no error then for every snapshot root:
    every tree below it is found in the index, decrypts, decodes with the recorded length and
    parses; every file has a content list; every chunk is found, decrypts, decodes, and hashes to
-   the chunk id; every tree other than the snapshot's root tree hashes to the id it is referenced
-   by.  [sel] is the answer of the index restore builds for itself; it may choose freely among equal
+   the chunk id; every tree, the snapshot's root tree included, hashes to the id it is referenced
+   by ([correct ... true]: strict about roots).  [sel] is the answer of the index restore builds for itself; it may choose freely among equal
    keys, which is harmless when no key occurs twice ([nodup_keys], evaluated on every e2e case). *)
 Theorem check_clean_implies_restorable :
   forall (B : Type) (hash : B -> id) (blen : B -> N) (parse : B -> option tree)
          (st : state B) (fuel : nat) (sel : selector),
     check B hash blen parse st fuel = Some [] ->
     nodup_keys B st = true -> sel_valid B st sel ->
-    forall r, In r (st_roots st) -> correct B hash blen parse st sel false fuel r = Some true.
+    forall r, In r (st_roots st) -> correct B hash blen parse st sel true fuel r = Some true.
 Proof. exact check_clean_implies_restorable_sel. Qed.
 Print Assumptions check_clean_implies_restorable.
 
@@ -28,7 +28,7 @@ Theorem check_clean_implies_restorable_same_index :
          (st : state B) (fuel : nat),
     check B hash blen parse st fuel = Some [] ->
     forall r, In r (st_roots st) ->
-      correct B hash blen parse st (lookup B st) false fuel r = Some true.
+      correct B hash blen parse st (lookup B st) true fuel r = Some true.
 Proof. exact check_clean_implies_restorable_lemma. Qed.
 Print Assumptions check_clean_implies_restorable_same_index.
 
@@ -38,7 +38,7 @@ Theorem damage_that_matters_is_reported :
   forall (B : Type) (hash : B -> id) (blen : B -> N) (parse : B -> option tree)
          (st : state B) (fuel : nat) (sel : selector) (r : id),
     nodup_keys B st = true -> sel_valid B st sel -> In r (st_roots st) ->
-    correct B hash blen parse st sel false fuel r = Some false ->
+    correct B hash blen parse st sel true fuel r = Some false ->
     check B hash blen parse st fuel <> Some [].
 Proof.
   intros B hash blen parse st fuel sel r Hn Hv Hr Hc Hk.
@@ -47,14 +47,14 @@ Proof.
 Qed.
 Print Assumptions damage_that_matters_is_reported.
 
-(* The set of packs the tree walk collects is sufficient: every index key restore fetches below a
-   snapshot root is answered with a pack of that set (which read_data then reads); the root trees
-   themselves are decrypted and parsed by the walk. *)
+(* The set of packs check_trees collects is sufficient: every index key restore fetches — the
+   snapshot's root tree and everything below it — is answered with a pack of that set, which
+   read_data then reads. *)
 Theorem packs_to_read_sufficient :
   forall (B : Type) (blen : B -> N) (parse : B -> option tree) (st : state B) (fuel : nat) used,
     check_trees B blen parse st fuel = Some ([], used) ->
     forall r, In r (st_roots st) ->
-      load_tree B blen parse st r <> None /\
+      (exists p b, lookup B st BTree r = Some (p, b) /\ In p used) /\
       exists ks, fetched B blen parse st fuel r = Some ks /\
                  forall t k, In (t, k) ks -> exists p b, lookup B st t k = Some (p, b) /\ In p used.
 Proof. exact packs_to_read_sufficient_lemma. Qed.
@@ -80,22 +80,18 @@ Theorem hash_fixes_content :
 Proof. exact hash_determines_content. Qed.
 Print Assumptions hash_fixes_content.
 
-(* FULL-STRENGTH statement 1 (kept for reference, refuted):
-     check ... = Some [] -> ... -> correct ... sel TRUE fuel r = Some true
-   i.e. also the snapshot's root tree hashes to the id recorded in the snapshot.  The walk reads
-   root trees without comparing their hash and does not put their pack into the set read_data
-   reads, so an authentic tree blob of the same layout in the root's place goes unnoticed. *)
-Theorem root_tree_hash_unverified_refuted :
-  exists (st : state N),
-    check N xhash xblen xparse st 5 = Some [] /\ nodup_keys N st = true /\
-    exists r, In r (st_roots st) /\ correct N xhash xblen xparse st (lookup N st) true 5 r = Some false.
-Proof.
-  exists st_root_replaced. split; [vm_compute; reflexivity|]. split; [vm_compute; reflexivity|].
-  exists 1. split; [left; reflexivity|vm_compute; reflexivity].
-Qed.
-Print Assumptions root_tree_hash_unverified_refuted.
+(* Before the fix `check: read the packs of the snapshots' root trees` the conclusion had to exempt
+   root trees (their pack was not in the read set and the walk compares no hash): the witness
+   state of that finding — an authentic tree of the same layout in the root's place — is now
+   reported, while the tree walk alone still lets it through. *)
+Theorem root_tree_replacement_is_reported :
+  check N xhash xblen xparse st_root_replaced 5 = Some [EBlobHash] /\
+  check_trees N xblen xparse st_root_replaced 5 = Some ([], [100; 102]) /\
+  correct N xhash xblen xparse st_root_replaced (lookup N st_root_replaced) true 5 1 = Some false.
+Proof. exact root_replaced_is_reported. Qed.
+Print Assumptions root_tree_replacement_is_reported.
 
-(* FULL-STRENGTH statement 2 (refuted): the premise nodup_keys cannot be dropped.  A blob stored
+(* FULL-STRENGTH statement without the premise nodup_keys (refuted): it cannot be dropped.  A blob stored
    in two packs: check's index answers with one copy and only that pack is read; restore's own
    index may answer with the other copy, which nothing has verified. *)
 Theorem duplicate_keys_refuted :
